@@ -20,7 +20,7 @@ RULE = ("(a) every command class is constructed over comm 0..255, counts 1..125,
         "command class, argument class) tuples + distinct transaction ids seen")
 ASSUMPTIONS = ["the decoders in refcodec follow the Modbus specification (big-endian fields, CRC lo-hi, MBAP length = bytes "
                "that follow) and the AA55 framing stated in the property"]
-MUST = ["tcp_connect_failures_between_requests", "tcp_session_dropped_between_requests", "contract_eval_create_modbus_rtu_request", "contract_eval_create_modbus_tcp_request",
+MUST = ["named_single_reads", "dt_fallback_model_query", "tcp_connect_failures_between_requests", "tcp_session_dropped_between_requests", "contract_eval_create_modbus_rtu_request", "contract_eval_create_modbus_tcp_request",
         "contract_eval_create_modbus_rtu_multi_request", "contract_eval_create_modbus_tcp_multi_request",
         "txid_wraps", "negative_values", "aa55_negative_values", "wire_ops_matched", "wire_retransmissions",
         "classes_constructed", "protocol_object_commands"]
@@ -299,6 +299,62 @@ def wire_ops(spec, part):
         part.see(f"wire|{framing}|{len(ops)}|{drops}|{tuple(o[0] for o in ops)}")
 
 
+def named_reads(spec, part):
+    """single reads of every listed sensor / setting id (ET, DT) with a non-default comm address on both transports: the request on
+    the wire must be a read of exactly the registers that hold the item (offset, ceil(size / 2)); plus DT's fallback model-name
+    query (taken when the identification block holds a non-ASCII model name)"""
+    from .. import models
+    g = env.goodwe()
+    rnd = random.Random(spec["seed"])
+    for fam, port, comm in (("ET", 8899, 0x25), ("ET", 502, 0x11), ("DT", 8899, 0x25), ("DT", 502, 0x31), ("ET", 8899, 0), ("DT", 502, 0)):
+        sim = models.family_sim(fam)
+        if fam == "DT":
+            sim.set_bytes(30001 + 11, bytes([0xC4, 0xD6, 0xFC, 0x80, 0x90, 0xA0, 0xB0, 0xC0, 0xD0, 0xE0]))     # model name field: not ASCII
+        want_comm = comm or (0xF7 if fam == "ET" else 0x7F)
+        items = []
+
+        async def flow(loop):
+            inv = models.family_cls(g, fam)("inv0", port, comm, 1, 0)
+            await inv.read_device_info()
+            for sn in list(inv.sensors()) + list(inv.settings()):
+                if getattr(sn, "size_", 0) <= 0:
+                    continue
+                n0 = len(sim.log)
+                role = "setting" if sn.id_ in {x.id_ for x in inv.settings()} and sn in tuple(inv.settings()) else "sensor"
+                try:
+                    await (inv.read_setting(sn.id_) if role == "setting" else inv.read_sensor(sn.id_))
+                except (ValueError, g.InverterError):
+                    pass
+                items.append((role, sn.id_, sn.offset, sn.size_, [r[2] for r in sim.log[n0:]]))
+
+        run = engine.run_custom({("inv0", port): sim}, flow, vtime_cap=5000, tx_cap=5000)
+        framing = "tcp" if port == 502 else "rtu"
+        case = {"named": True, "seed": spec["seed"]}
+        if run.stop or run.error is not None:
+            bad(part, framing, "named-reads-failed", f"{fam} port {port} comm {comm}: {run.stop or repr(run.error)}", case)
+            continue
+        for b in sim.bad:
+            bad(part, framing, "undecodable-request", f"{fam} port {port} comm {comm}: simulator could not decode transmission #{b[0]}: {b[1]} ({b[2].hex()[:60]})", case)
+        for t, n, req, raw in sim.log:
+            part.evaluations += 1
+            if req["reg"] == 0x9CED:
+                part.count("dt_fallback_model_query")
+            if req["comm"] != want_comm:
+                bad(part, framing, "request-carries-wrong-arguments",
+                    f"{fam} port {port} configured comm {want_comm}: transmission #{n} ({req['kind']} {req['reg']}) is addressed to {req['comm']}", case)
+        for role, sid, off, size, reqs in items:
+            part.count("named_single_reads")
+            # (block-served ids - calculated values, two-word bitmaps - poll whole blocks; a direct read must cover the item exactly)
+            direct = [r for r in reqs if r["kind"] == "read" and r["reg"] == off]
+            if len(reqs) == 1 and reqs[0]["kind"] == "read" and not direct:
+                bad(part, framing, "request-carries-wrong-arguments", f"{fam} {role} {sid}@{off} ({size} bytes): single read transmitted {reqs[0]['reg']} x{reqs[0]['count']}", case)
+            for r in direct:
+                if len(reqs) == 1 and r["count"] != (size + 1) // 2:
+                    bad(part, framing, "request-carries-wrong-arguments",
+                        f"{fam} {role} {sid}@{off} ({size} bytes): the read on the wire asks for {r['count']} registers, the item occupies {(size + 1) // 2}", case)
+        part.see(f"named|{fam}|{port}|{comm}")
+
+
 def plan(tier, seed):
     specs = []
     step = 8192
@@ -312,6 +368,7 @@ def plan(tier, seed):
                           "seed": f"{seed}:C03:r:{lo}"})
     specs.append({"mode": "ctor", "what": "grid", "seed": f"{seed}:C03:g"})
     specs.append({"mode": "txid", "n": 200000 if tier == "quick" else 400000})
+    specs.append({"mode": "named", "seed": f"{seed}:C03:named"})
     for i in range(4 if tier == "quick" else 32):
         specs.append({"mode": "wire", "seed": f"{seed}:C03:w:{i}", "n": 250 if tier == "quick" else 8000})
     return specs
@@ -324,6 +381,8 @@ def run_shard(spec):
         constructors(spec, part)
     elif spec["mode"] == "txid":
         txid_history(spec, part)
+    elif spec["mode"] == "named":
+        named_reads(spec, part)
     else:
         wire_ops(spec, part)
     if part.evaluations and not part.samples:
@@ -335,7 +394,9 @@ def replay(case):
     g = env.goodwe()
     part = Part()
     contracts.install_request_contracts(contracts.Sink(part))
-    if case.get("txid"):
+    if case.get("named"):
+        named_reads({"seed": case["seed"]}, part)
+    elif case.get("txid"):
         txid_history({"n": case["n"] + 10}, part)
     elif case.get("wire"):
         wire_ops({"seed": case["seed"], "n": case["i"] + 1}, part)
